@@ -12,7 +12,7 @@ CORE_NOTE = ("Trusted: TLC; harness/export.py (indexes the MachineNode the libra
 CHECKS = {
     "C01": dict(
         technique="TLA+ Impl-layer step semantics model-checked with TLC over machine families; every TLC edge replayed on the real Sync/Async/Pure engines; recorded runs trace-validated by TLC (Legal() on every observed configuration)",
-        text="Every reachable quiescent state x event of every machine in families T/H/D is explored by TLC on an implementation-shaped TLA+ spec (spec/SCCore.tla); invariant Legal is evaluated on the post-configuration and on every configuration seen by on_transition hooks and subscribers (spec/SCProps.tla C01); every explored edge is executed on the real engines and must agree state-for-state and log-for-log, and random walks over larger machines are validated step by step against the spec. A violation is reported only for an observed real-engine step whose configuration is illegal.",
+        text="Every reachable quiescent state x event of every machine in families T/H/D is explored by TLC on an implementation-shaped TLA+ spec (spec/SCCore.tla); invariant Legal is evaluated on the post-configuration and on every configuration seen by on_transition hooks and subscribers (spec/SCProps.tla C01); every explored edge is executed on the real engines and must agree state-for-state and log-for-log, and random walks over larger machines are validated step by step against the spec. A violation is reported only for an observed real-engine step whose configuration is illegal. Thorough tier additionally runs the repository's own test suite with a recording pytest plugin (outside the repo) and lets TLC evaluate Legal on every configuration its interpreters show a subscriber (spec/SuiteLegal.tla).",
         design="DESIGN.md section 8 C01"),
     "C02": dict(
         technique="TLC model checking of selection (first enabled candidate at nearest ancestor, per active leaf) vs. the implementation's select/execute mechanics; edge replay with every _select_transitions call and fired transition observed; trace validation",
